@@ -305,3 +305,218 @@ def gen_edge(seed, idx):
         steps.append({"op": "tick", "n": rng.randint(1, 6)})
     steps.append({"op": "drain", "n": 110})
     return {"name": f"edge-{kind}-{seed}-{idx}", "cfg": {}, "steps": steps, "complete": True, "mode": "seq", "snap": 0}
+
+
+# ---------------------------------------------------------------------------------------------------------------------
+# terms of a hold that CHANGE between the requests of one LockId (Count / Rcount carried by re-locks and updates)
+
+def gen_terms(seed, idx):
+    """Histories in which the requests of ONE LockId carry different Count / Rcount values while the hold lives:
+    updates that change only Count / Rcount (deadline class unchanged: unlimited -> unlimited, timed -> the same
+    deadline within the granularity, keep-the-deadline 0xffff), by the oldest holder or by a later one, with flag 0x02
+    by the holder or 0x03 (show + update) by anybody; re-entrant re-locks with another Count; other LockIds holding the
+    key meanwhile; then newcomers whose admission depends on the holder's NEW Count, unlocks / re-locks / duplicate
+    unlocks of the OTHER holders, and the levels of the re-entrant hold released.  The wide-range complement of the
+    `relock` / `newcomer` / `hunlock` turn classes of spec/LockEngineSim.tla (sim/LockEngine_sim_terms.cfg)."""
+    rng = random.Random(seed * 15485863 + idx * 31 + 7)
+    kind = idx % 3
+    db = rng.choice([0, 0, 0, 3])
+    key = rng.choice([1, 1, 2, 0, 77])
+    L = lambda **kw: dict({"op": "lock", "conn": rng.randint(1, 4), "db": db, "key": key, "lid": 1, "flag": 0, "tf": 0, "ef": 0, "to": 0, "ex": 60, "cnt": 0, "rc": 0, "nodup": True}, **kw)
+    U = lambda **kw: dict({"op": "unlock", "conn": rng.randint(1, 4), "db": db, "key": key, "lid": 1, "flag": 0, "tf": 0, "ef": 0, "to": 0, "ex": 0, "cnt": 0, "rc": 0}, **kw)
+    steps = []
+    # deadline class of the hold whose terms change: (expiry flag, Expried of the first request, Expried of the later ones)
+    cls = rng.choice(["unl", "unl", "unl", "sec", "sec", "min", "keep"])
+    def terms_of(first):
+        if cls == "unl":
+            return {"ef": 0x4000, "ex": rng.choice([1, 5, 30, 0x7fff, 0xfffe])}
+        if cls == "keep":
+            return {"ef": 0x4000 if (first or rng.random() < 0.8) else 0, "ex": rng.choice([5, 40]) if first else 0xffff} if not first else {"ef": rng.choice([0, 0x4000]), "ex": 50}
+        if cls == "min":
+            return {"ef": 0x40, "ex": 2}
+        return {"ef": 0, "ex": 50}
+    def fix_keep(d):
+        if cls == "keep" and d["ex"] == 0xffff:
+            d["ef"] = 0x4000
+        return d
+    A = rng.choice([1, 5, 9])
+    if kind == 0:
+        # (a) Count-only / Rcount-only updates, newcomers judged against the new Count
+        c0 = rng.choice([1, 2, 3, 5, 0xffff])
+        nother = rng.choice([0, 0, 1, 2]) if c0 < 0xffff else rng.choice([0, 3, 8])
+        first_is_A = rng.random() < 0.7
+        order = [A] + [20 + i for i in range(nother)]
+        if not first_is_A and nother:
+            order = order[1:2] + [A] + order[2:]
+        for l in order:
+            steps.append(L(lid=l, cnt=max(c0, nother), rc=rng.choice([0, 1, 3]), **(terms_of(True) if l == A else {"ef": rng.choice([0, 0x4000]), "ex": 80})))
+        held = len(order)
+        for rnd in range(rng.randint(1, 3)):
+            newc = rng.choice([0, 0, held - 1, held, max(0, held - 2), c0 + 1, 1])
+            newc = max(0, min(newc, 0xffff))
+            who = rng.random()
+            d = fix_keep(L(lid=A, flag=2, cnt=newc, rc=rng.choice([0, 1, 3]), **terms_of(False)))
+            if who < 0.25:
+                d.update(lid=rng.choice([777, A]), flag=3)          # show + update: addresses the OLDEST holder whatever LockId it names
+            steps.append(d)
+            if rng.random() < 0.3:
+                steps.append(L(lid=A, flag=1, cnt=9, to=0))         # show: echoes the oldest holder's terms
+            # newcomers answered at once: Count chosen around the number of holds outstanding
+            for j in range(rng.randint(1, 3)):
+                steps.append(L(lid=100 + 10 * rnd + j, cnt=rng.choice([held, held + 1, c0, max(c0, held), 0xffff, 1]), to=rng.choice([0, 0, 0, 3]),
+                               ex=rng.choice([40, 80]), tf=0))
+            if rng.random() < 0.4:
+                steps.append({"op": "tick", "n": 1})
+            if rng.random() < 0.4 and nother:
+                steps.append(U(lid=20 + rng.randrange(nother)))
+        steps.append({"op": "tick", "n": rng.choice([1, 2, 4])})
+    elif kind == 1:
+        # (b) a re-entrant re-lock / an update replaces the hold's Count while OTHER LockIds hold the key; then the others
+        #     unlock, re-lock, unlock twice; wide holder populations (inline slots, ring, map-backed queue)
+        nother = rng.choice([1, 1, 2, 3, 7, 12, 140])
+        c0 = rng.choice([nother, nother + 1, nother + 3, 0xffff])
+        rcA = rng.choice([1, 2, 5, 255])
+        others = [20 + i for i in range(nother)]
+        a_first = rng.random() < 0.75
+        seq = ([A] if a_first else []) + others[: nother // 2 + 1] + ([] if a_first else [A]) + others[nother // 2 + 1:]
+        for l in seq:
+            if l == A:
+                steps.append(L(lid=A, cnt=c0, rc=rcA, **terms_of(True)))
+            else:
+                steps.append(L(lid=l, cnt=c0, rc=rng.choice([0, 1, 2]), ex=rng.choice([60, 90])))
+        for rnd in range(rng.randint(1, 3)):
+            newc = rng.choice([0, 0, 0, 1, nother - 1 if nother > 1 else 0, c0])
+            if rng.random() < 0.65:
+                steps.append(fix_keep(L(lid=A, cnt=newc, rc=rng.choice([rcA, rcA, 1, 3]), **terms_of(False))))                 # re-entrant re-lock with another Count
+            else:
+                steps.append(fix_keep(L(lid=A, flag=2, cnt=newc, rc=rng.choice([rcA, 0, 2]), **terms_of(False))))              # update with another Count
+            pick = rng.sample(others, min(len(others), rng.choice([1, 2, 4])))
+            for l in pick:
+                r = rng.random()
+                if r < 0.45:
+                    steps.append(U(lid=l, rc=rng.choice([0, 1])))
+                    if rng.random() < 0.4:
+                        steps.append(U(lid=l, rc=0))                 # second unlock of a released hold: refused, unless a level was left
+                elif r < 0.7:
+                    steps.append(L(lid=l, cnt=rng.choice([c0, newc]), rc=rng.choice([1, 2]), ex=60))      # re-lock by a later holder
+                elif r < 0.85:
+                    steps.append(U(lid=l, flag=2))                   # cancel-wait by a HOLDER: nothing queued under that LockId
+                else:
+                    steps.append(L(lid=l, flag=2, cnt=rng.choice([c0, 0]), rc=1, ex=60))                 # update by a later holder
+            if rng.random() < 0.5:
+                steps.append(L(lid=300 + rnd, cnt=rng.choice([c0, nother + 2, 1]), to=0, ex=30))          # newcomer
+            if rng.random() < 0.3:
+                steps.append(U(lid=A, rc=1))                         # one level of the re-entrant hold
+            if rng.random() < 0.3:
+                steps.append({"op": "tick", "n": 1})
+        steps.append(U(lid=A, rc=rng.choice([0, 1])))
+        for l in rng.sample(others, min(len(others), 3)):
+            steps.append(U(lid=l, rc=0))
+    else:
+        # (c) free mixture on one key: every request draws its own Count / Rcount / deadline class
+        lids = [1, 2, 3, 4]
+        counts = rng.choice([[0, 1, 2, 3], [0, 2, 0xffff], [1, 3, 5], [0, 1, 0xfffe, 0xffff]])
+        for _ in range(rng.randint(18, 40)):
+            r = rng.random()
+            if r < 0.55:
+                d = L(lid=rng.choice(lids), cnt=rng.choice(counts), rc=rng.choice([0, 1, 2, 3, 255]), to=rng.choice([0, 0, 0, 4]),
+                      ex=rng.choice([40, 60, 0xffff, 2]), ef=rng.choice([0, 0, 0x4000, 0x4000, 0x40]))
+                if d["ex"] == 0xffff:
+                    d["ef"] = 0x4000
+                if d["ef"] == 0x40:
+                    d["ex"] = rng.choice([1, 2])
+                d["flag"] = rng.choice([0, 0, 0, 2, 2, 3, 1])
+                steps.append(d)
+            elif r < 0.85:
+                steps.append(U(lid=rng.choice(lids), rc=rng.choice([0, 1, 1]), flag=rng.choice([0, 0, 0, 0, 1, 2])))
+            else:
+                steps.append({"op": "tick", "n": rng.choice([1, 1, 2])})
+    steps.append({"op": "drain", "n": rng.choice([8, 130])})
+    return {"name": f"terms-{kind}-{cls}-{seed}-{idx}", "cfg": {}, "steps": steps, "complete": True, "mode": "seq", "snap": 1 if len(steps) > 150 else 0}
+
+
+# ---------------------------------------------------------------------------------------------------------------------
+# wait queues that change their representation AFTER they have outgrown the inline part
+
+def gen_bigq(seed, idx, fixed=None):
+    """One key whose wait queue outgrows its inline slice (8 -> 16 -> ... doubling while cap <= 128; from then on new
+    waiters go to a plain ring while the older ones stay in the slice) with waiters of ONE priority, and only then
+    meets a request of ANOTHER priority (the one-time rebuild into the priority ring) - before anything was served,
+    after a part of the inline slice was served, around the point where the slice runs empty, and after it; with and
+    without tombstoned (cancelled / timed-out) entries in both parts.  Afterwards more waiters of both priorities
+    arrive and the holds end one by one until every request has been served: C04 judges the order of the grants, the
+    newcomers, and at the `snap` steps whether a live queued request could be admitted."""
+    rng = random.Random(seed * 2750159 + idx * 17 + 3)
+    steps = []
+    n = rng.choice([150, 170, 200, 200, 260, 300, 330])         # beyond the inline part (144 slots with this Go runtime; 256 at most)
+    sem = rng.random() < 0.25                       # shared key: several holders, wake passes that admit more than one
+    cnt = rng.choice([1, 2]) if sem else 0
+    p0 = rng.choice([0, 0, 3, 5])                   # priority of the long queue (0: mostly without the priority flag)
+    p1 = rng.choice([x for x in [0, 1, 3, 5, 9, 200] if x != p0])
+    flagged0 = p0 > 0 or rng.random() < 0.3
+    # how much of the queue is served before the switch: mostly while the inline slice still holds waiters (both parts
+    # non-empty at the rebuild), sometimes around the point where the slice runs empty, sometimes well after it
+    r = rng.random()
+    if r < 0.6:
+        served0 = rng.choice([0, 0, 1, 7, 60, 120, 127, 128, rng.randint(8, 139), rng.randint(8, 139)])
+    elif r < 0.8:
+        served0 = rng.choice([140, 141, 142, 143, 144, 145, 146])
+    else:
+        served0 = rng.choice([150, 200, 255, 256, 257, 300])
+    if fixed:
+        n, cnt, p0, p1, served0 = fixed["n"], fixed.get("cnt", 0), fixed["p0"], fixed["p1"], fixed["served"]
+        flagged0 = p0 > 0
+    def W(lid, prio, flagged, **kw):
+        d = {"op": "lock", "conn": 2 + lid % 3, "key": 1, "lid": lid, "to": rng.choice([10, 12, 15]), "tf": 0x40 | (0x10 if flagged else 0), "ex": 300,
+             "cnt": cnt, "rc": prio if flagged else 0, "nodup": True}
+        d.update(kw)
+        return d
+    rel = {"op": "unlock", "conn": 1, "key": 1, "lid": 999999, "flag": 1}      # unlock-first by a LockId nobody holds: ends the oldest hold
+    for h in range(cnt + 1):
+        steps.append({"op": "lock", "conn": 1, "key": 1, "lid": 1 + h, "to": 0, "ex": 300, "cnt": cnt})
+    lid = 10
+    for i in range(n):
+        steps.append(W(lid, p0, flagged0)); lid += 1
+    # tombstones in both parts of the queue
+    if rng.random() < 0.5:
+        for v in rng.sample(range(n), rng.choice([1, 3, 10])):
+            steps.append({"op": "unlock", "conn": 1, "key": 1, "lid": 10 + v, "flag": 2})
+    # part of the queue is served before the switch
+    served = min(n - 2, served0)
+    for _ in range(served):
+        steps.append(rel)
+    if served and rng.random() < 0.5:
+        # the queue grows again behind the served part (the slice is compacted / the ring continues)
+        for i in range(rng.choice([1, 5, 40])):
+            steps.append(W(lid, p0, flagged0)); lid += 1
+    steps.append({"op": "snap"})
+    # the request with another priority: the queue is rebuilt as a priority ring
+    steps.append(W(lid, p1, True if p1 > 0 else (not flagged0 or rng.random() < 0.5))); lid += 1
+    steps.append({"op": "snap"})
+    # later arrivals of both priorities and of a third one
+    for i in range(rng.choice([0, 2, 6, 20])):
+        pr = rng.choice([p0, p0, p1, 7])
+        steps.append(W(lid, pr, pr > 0 or flagged0)); lid += 1
+    if rng.random() < 0.3:
+        steps.append({"op": "unlock", "conn": 1, "key": 1, "lid": 10 + rng.randrange(n), "flag": 2})
+    # the holds end one by one: everybody must be served, in order
+    total = lid - 10 + cnt + 1
+    k = 0
+    while k < total + 3:
+        steps.append(rel); k += 1
+        if k % 97 == 0 or rng.random() < 0.01:
+            steps.append({"op": "snap"})
+        if rng.random() < 0.01:
+            steps.append({"op": "lock", "conn": 4, "key": 1, "lid": 500000 + k, "to": 0, "ex": 300, "cnt": cnt})     # a newcomer may not pass the queue
+    steps.append({"op": "snap"})
+    steps.append({"op": "tick", "n": 2})
+    steps.append({"op": "drain", "n": 5})
+    name = f"bigq-{n}-{served}-{p0}to{p1}-{seed}-{idx}" if not fixed else f"dir-bigq-{n}-waiters-{served}-served-priority-{p0}-then-{p1}"
+    return {"name": name, "cfg": {}, "steps": steps, "complete": True, "mode": "seq", "snap": 1}
+
+def bigq_directed():
+    """Fixed members of the family (the same in every run): a long queue of unflagged waiters met by a higher priority,
+    a long priority-5 queue met by a LOWER priority after a part was served, and a shared key."""
+    return [gen_bigq(0, 1000, {"n": 300, "p0": 0, "p1": 5, "served": 0}),
+            gen_bigq(0, 1001, {"n": 200, "p0": 5, "p1": 0, "served": 60}),
+            gen_bigq(0, 1002, {"n": 260, "p0": 0, "p1": 9, "served": 100, "cnt": 1})]
